@@ -9,7 +9,8 @@ Local Open Scope N_scope.
 
 Section DeadMain.
 Variable x : str.
-Variables e1 e2 : cexpr.
+Variables e1 e2 : list frame.
+Hypothesis Hdead : dead_pair x e1 e2.
 Notation vr := (vrel x e1 e2).
 Notation tr := (trel x e1 e2).
 Notation er := (erel x e1 e2).
@@ -198,7 +199,7 @@ Lemma arg_thunks_rel ps fr0 fr0' vs io : er fr0 fr0' vs io -> (forall p, In p ps
 Proof.
   intros He. unfold arg_thunks. induction ps as [|p r IH]; intros Hin; simpl; [constructor|].
   apply Forall2_app_intro; [|apply IH; intros; apply Hin; right; assumption].
-  destruct (erel_lookup_var x e1 e2 _ _ _ _ He (fst p) (Hin p (or_introl eq_refl))) as (t & t' & -> & -> & Ht).
+  destruct (erel_lookup_var x e1 e2 Hdead _ _ _ _ He (fst p) (Hin p (or_introl eq_refl))) as (t & t' & -> & -> & Ht).
   constructor; [exact Ht | constructor].
 Qed.
 
@@ -379,10 +380,10 @@ Lemma rel2_do_eval en en' vs io e d : er en en' vs io -> closed vs io e -> rel2 
 Proof.
   intros He Hc. unfold do_eval. destruct e; inversion Hc; subst; try solve [r2_tac].
   - (* CSelf *)
-    destruct (erel_lookup_obj x e1 e2 _ _ _ _ He eq_refl) as (ls & ls' & i & c & E & E' & Hls). rewrite E, E'.
+    destruct (erel_lookup_obj x e1 e2 Hdead _ _ _ _ He eq_refl) as (ls & ls' & i & c & E & E' & Hls). rewrite E, E'.
     apply rel2_ret. constructor. exact Hls.
   - (* CVar *)
-    destruct (erel_lookup_var x e1 e2 _ _ _ _ He _ ltac:(eassumption)) as (t & t' & -> & -> & Ht). r2_tac.
+    destruct (erel_lookup_var x e1 e2 Hdead _ _ _ _ He _ ltac:(eassumption)) as (t & t' & -> & -> & Ht). r2_tac.
   - (* CObject *)
     eapply rel2_bind; [eapply rel2_build_fields; try eassumption; constructor|]. intros fs fs' Hfs.
     apply rel2_ret. constructor. constructor; [|constructor]. eapply lr_object; eassumption.
@@ -398,7 +399,7 @@ Proof.
     apply rel2_ret. constructor. eapply Forall2_map_intro; [exact Henvs|]. intros a a' Ha. econstructor; [exact Ha | assumption].
   - (* CInSuper *)
     eapply rel2_bind; [eapply rel2_eval; eassumption|]. intros v v' Hv. destruct v; rel_inv; try solve [r2_tac].
-    eapply rel2_with_super; [exact He|]. intros ls ls' i Hls. apply rel2_ret. rewrite (lsrel_has_field x e1 e2 ls ls' (i + 1) s Hls). constructor.
+    eapply (rel2_with_super x e1 e2 Hdead); [exact He|]. intros ls ls' i Hls. apply rel2_ret. rewrite (lsrel_has_field x e1 e2 ls ls' (i + 1) s Hls). constructor.
   - (* CCall *)
     eapply rel2_bind; [eapply rel2_eval; eassumption|]. intros fv fv' Hfv. rewrite <- (is_fun_rel _ _ Hfv). destruct (is_fun fv); [|r2_tac].
     eapply rel2_bind; [apply rel2_ask_ts_tail|]. intros ot ot' ->. apply rel2_apply; [exact Hfv | |].
